@@ -1,0 +1,150 @@
+// Copyright © 2022-2026 Obol Labs Inc. Licensed under the terms of a Business Source License 1.1
+
+//go:build verif
+
+package qbft
+
+import (
+	"context"
+
+	k1 "github.com/decred/dcrd/dcrec/secp256k1/v4"
+	"github.com/libp2p/go-libp2p/core/peer"
+	"google.golang.org/protobuf/proto"
+	"google.golang.org/protobuf/types/known/anypb"
+
+	"github.com/obolnetwork/charon/app/log"
+	"github.com/obolnetwork/charon/core"
+	"github.com/obolnetwork/charon/core/consensus/instance"
+	pbv1 "github.com/obolnetwork/charon/core/corepb/v1"
+	"github.com/obolnetwork/charon/core/qbft"
+)
+
+// Verification hooks (build tag verif): entry points of the wire-message admission path for the
+// external verification harness. They add no behaviour and are not compiled into normal builds.
+
+// NewConsensusVerif returns a consensus component without libp2p host, sender and beacon client:
+// exactly the fields `handle` reads (pubkeys by peer index as NewConsensus builds them, deadliner,
+// gater, drop filter, the instances map).
+func NewConsensusVerif(pubkeys []*k1.PublicKey, deadliner core.Deadliner, gaterFunc core.DutyGaterFunc) *Consensus {
+	keys := make(map[int64]*k1.PublicKey)
+	for i, pk := range pubkeys {
+		keys[int64(i)] = pk
+	}
+
+	c := &Consensus{
+		pubkeys:    keys,
+		deadliner:  deadliner,
+		gaterFunc:  gaterFunc,
+		dropFilter: log.Filter(),
+	}
+	c.mutable.instances = make(map[core.Duty]*instance.IO[Msg])
+
+	return c
+}
+
+// HandleVerif calls handle (the libp2p receive callback) and returns its error.
+func (c *Consensus) HandleVerif(ctx context.Context, from peer.ID, req proto.Message) error {
+	_, _, err := c.handle(ctx, from, req)
+	return err
+}
+
+// RecvBufferVerif returns the messages queued in the duty's outer receive buffer in FIFO order
+// (the channel is drained and refilled in the same order) and whether an instance exists for the
+// duty; it never creates one. Only call it while nothing else uses the component.
+func (c *Consensus) RecvBufferVerif(duty core.Duty) ([]Msg, bool) {
+	c.mutable.Lock()
+	inst, ok := c.mutable.instances[duty]
+	c.mutable.Unlock()
+
+	if !ok {
+		return nil, false
+	}
+
+	var msgs []Msg
+
+	for {
+		select {
+		case m := <-inst.RecvBuffer:
+			msgs = append(msgs, m)
+			continue
+		default:
+		}
+
+		break
+	}
+
+	for _, m := range msgs {
+		inst.RecvBuffer <- m
+	}
+
+	return msgs, true
+}
+
+// InstanceCountVerif returns the number of instance IOs held by the component.
+func (c *Consensus) InstanceCountVerif() int {
+	c.mutable.Lock()
+	defer c.mutable.Unlock()
+
+	return len(c.mutable.instances)
+}
+
+// InstanceIOVerif exposes getInstanceIO (creates the instance IO if missing).
+func (c *Consensus) InstanceIOVerif(duty core.Duty) *instance.IO[Msg] {
+	return c.getInstanceIO(duty)
+}
+
+// DeleteInstanceIOVerif exposes deleteInstanceIO.
+func (c *Consensus) DeleteInstanceIOVerif(duty core.Duty) {
+	c.deleteInstanceIO(duty)
+}
+
+// VerifyMsgVerif exposes verifyMsg.
+func VerifyMsgVerif(msg *pbv1.QBFTMsg, pubkeys map[int64]*k1.PublicKey) error {
+	return verifyMsg(msg, pubkeys)
+}
+
+// VerifyMsgLimitsVerif exposes verifyMsgLimits.
+func VerifyMsgLimitsVerif(pbMsg *pbv1.QBFTConsensusMsg, nodes int) error {
+	return verifyMsgLimits(pbMsg, nodes)
+}
+
+// VerifyMsgSigVerif exposes verifyMsgSig.
+func VerifyMsgSigVerif(msg *pbv1.QBFTMsg, pubkey *k1.PublicKey) (bool, error) {
+	return verifyMsgSig(msg, pubkey)
+}
+
+// SignMsgVerif exposes signMsg.
+func SignMsgVerif(msg *pbv1.QBFTMsg, privkey *k1.PrivateKey) (*pbv1.QBFTMsg, error) {
+	return signMsg(msg, privkey)
+}
+
+// HashProtoVerif exposes hashProto.
+func HashProtoVerif(msg proto.Message) ([32]byte, error) {
+	return hashProto(msg)
+}
+
+// ValuesByHashVerif exposes valuesByHash.
+func ValuesByHashVerif(values []*anypb.Any) (map[[32]byte]*anypb.Any, error) {
+	return valuesByHash(values)
+}
+
+// NewMsgVerif exposes newMsg.
+func NewMsgVerif(pbMsg *pbv1.QBFTMsg, justification []*pbv1.QBFTMsg, values map[[32]byte]*anypb.Any) (Msg, error) {
+	return newMsg(pbMsg, justification, values)
+}
+
+// CreateMsgVerif exposes createMsg (the constructor used by transport.Broadcast).
+func CreateMsgVerif(typ qbft.MsgType, duty core.Duty, peerIdx int64, round int64, vHash [32]byte, pr int64,
+	pvHash [32]byte, values map[[32]byte]*anypb.Any, justification []qbft.Msg[core.Duty, [32]byte, proto.Message],
+	privkey *k1.PrivateKey,
+) (Msg, error) {
+	return createMsg(typ, duty, peerIdx, round, vHash, pr, pvHash, values, justification, privkey)
+}
+
+// LeaderVerif exposes leader.
+func LeaderVerif(duty core.Duty, round int64, nodes int) int64 {
+	return leader(duty, round, nodes)
+}
+
+// MaxConsensusMsgSizeVerif exposes maxConsensusMsgSize.
+const MaxConsensusMsgSizeVerif = maxConsensusMsgSize
